@@ -858,3 +858,101 @@ def check_C10(run):
         shutil.rmtree(d, ignore_errors=True)
     run.cov['trusted_base'] = C.GLOBAL_TRUST + ['AES-128-GCM is an ideal AEAD (correctness, ciphertext integrity, nonce binding): a computational assumption, stated as the laws of the AEAD parameter (a toy instance shows they are satisfiable)',
                                                 'OsRng key freshness; TCP delivers bytes in order per connection']
+
+
+# ------------------------------------------------------------------ C15
+
+@prop('C15')
+def check_C15(run):
+    from . import l4
+    import shutil
+    thorough = run.tier == 'thorough'
+    if not prepare(run, need_cli=True):
+        return
+    C.proofs_step(run, 'C15')
+    rng = run.rng
+    run.cov['rule'] = ('L1: the two key-text expressions on keys incl. every number of leading zero bytes; L4: the CLI against a fake ssh/scp (real --doer process, real TCP + AES-GCM) over '
+                       'remote states {absent, same version, other version, broken} x deploy behaviours x prompt answers, one or both doers remote; log of launches / uploads / stdin of a wrong-version doer '
+                       'vs the model; every case non-trivial; distinct by configuration / key')
+    # ---- key text
+    keys = ['00' * 16, 'ff' * 16, '00' * 15 + '01', '80' + '00' * 15, '0' * 31 + 'f', '0f' + 'a5' * 15]
+    keys += ['00' * k + '%0*x' % (2 * (16 - k), rng.getrandbits(8 * (16 - k))) for k in range(0, 16)]
+    keys += ['%032x' % rng.getrandbits(128) for _ in range(2000 if not thorough else 50000)]
+    impl = [a for a, _ in C.run_harness(['key ' + k for k in keys])]
+    model = C.run_model(['key ' + k for k in keys])
+    for k, i_ans, m_ans in zip(keys, impl, model):
+        run.case(('key', k), True, sample=dict(layer='L1', key=k, impl=i_ans) if k.startswith('00') else None)
+        run.count('key:' + ('leading-zero-byte' if k.startswith('00') else 'other')); run.cov['traces_validated_against_impl'] += 1
+        if not i_ans.endswith(' back=' + k) or len(bytes.fromhex(i_ans.split(' ')[0][4:])) != 32:
+            run.violation(dict(kind='oracle-failed-on-implementation', oracle='the doer reconstructs the key bit-exactly from a 32-digit text', layer='L1', key=k, impl=i_ans, model=m_ans))
+            break
+        if i_ans != m_ans:
+            run.violation(dict(kind='correspondence-broken', correspondence='L1/key-text', key=k, impl=i_ans, model=m_ans), no_input=True)
+            break
+    run.cov['disagreements_checked'] += len(keys)
+    # the two expressions are still what the source says
+    bl = open(os.path.join(C.REPO, 'src/boss_launch.rs')).read(); dr = open(os.path.join(C.REPO, 'src/doer.rs'), newline='').read()
+    import re
+    if not re.search(r'format!\("\{:x\}\\n",\s*key\)', bl) or not re.search(r'u128::from_str_radix\(&secret,\s*16\)', dr) or 'b.to_be_bytes()' not in dr:
+        run.violation(dict(kind='extraction-broken', what='key text expressions (format!("{:x}\\n", key) / u128::from_str_radix(&secret, 16) / to_be_bytes) no longer found in the source; the L1 tie duplicates them'), no_input=True)
+    # ---- launch matrix
+    sb = l4.Sandbox()
+    try:
+        os.makedirs(sb.dir + '/src/sub'); open(sb.dir + '/src/f', 'w').write('hello'); open(sb.dir + '/src/sub/g', 'w').write('x' * 5000)
+        configs = []
+        for state in ('absent', 'same', 'other', 'broken'):
+            for dep in ('p', 'e', 'k', 'f'):
+                for ans in ((True, False) if dep == 'p' else (False,)):
+                    configs.append((state, dep, ans, 'dest'))
+        configs += [('absent', 'k', False, 'both'), ('other', 'p', True, 'both'), ('same', 'e', False, 'src'), ('other', 'e', False, 'src')]
+        if thorough:
+            configs = configs * 5
+        mlines = [f'setup {dep} {state} same {int(ans)} 1' for state, dep, ans, where in configs]
+        model = C.run_model(mlines)
+        depword = {'p': 'prompt', 'e': 'error', 'k': 'ok', 'f': 'force'}
+        for (state, dep, ans, where), m_ans in zip(configs, model):
+            sb.place_remote(state); open(sb.log, 'w').close()
+            shutil.rmtree(sb.dir + '/dst', ignore_errors=True)
+            so = sb.dir + '/stdin-of-other-version.txt'
+            if os.path.exists(so): os.unlink(so)
+            src = ('localhost:' if where in ('src', 'both') else '') + sb.dir + '/src/'
+            dst = ('localhost:' if where in ('dest', 'both') else '') + sb.dir + '/dst/'
+            env = sb.env({'RJRSSYNC_TEST_PROMPT_RESPONSE': '9:.*:Deploy'} if ans else {})
+            r = l4.run_cli([src, dst, '--deploy', depword[dep]], env=env, timeout=120)
+            log = sb.fake_log()
+            launches = sum(1 for l in log if l[0] == 'ssh' and '--doer' in l[2])
+            uploads = any(l[0] == 'scp' for l in log)
+            synced = os.path.exists(sb.dir + '/dst/sub/g')
+            other_stdin = open(so).read() if os.path.exists(so) else ''
+            m = dict(x.split('=') for x in m_ans.split())
+            run.case(('launch', state, dep, ans, where), True, sample=dict(layer='L4', remote_state=state, deploy=depword[dep], answer_deploy=ans, remote_side=where,
+                                                                           rc=r['rc'], launches=launches, uploads=uploads, model=m_ans))
+            run.count(f'launch:{state}:{depword[dep]}'); run.cov['traces_validated_against_impl'] += 1
+            # oracle (property, independent of the model)
+            why = None
+            if uploads and not (dep in ('k', 'f') or (dep == 'p' and ans)):
+                why = 'a binary was uploaded without consent'
+            elif other_stdin.strip():
+                why = 'a key was written to a doer that announced another version'
+            elif (r['rc'] == 0) != synced:
+                why = 'exit status and result disagree'
+            elif state == 'other' and not uploads and r['rc'] == 0:
+                why = 'sync traffic with a doer of another version'
+            elif r['timeout'] or r['rc'] not in (0, 10, 11):
+                why = f'unexpected exit {r["rc"]}'
+            if why:
+                run.violation(dict(kind='oracle-failed-on-implementation', oracle=why, layer='L4', remote_state=state, deploy=depword[dep], answer_deploy=ans,
+                                   remote_side=where, rc=r['rc'], fake_log=log, stderr=r['err'][-1500:]))
+                continue
+            # correspondence (one remote side: exact; both sides remote: the second setup finds the first's deployment)
+            if where != 'both':
+                got = f"launches={launches} uploads={int(uploads)} ok={int(r['rc'] == 0)}"
+                want = f"launches={m['launches']} uploads={m['uploads']} ok={m['ok']}"
+                if got != want:
+                    run.violation(dict(kind='correspondence-broken', correspondence='L4/setup_comms', remote_state=state, deploy=depword[dep], answer_deploy=ans,
+                                       impl=got, model=want, fake_log=log), no_input=True)
+        run.cov['disagreements_checked'] += len(configs)
+    finally:
+        sb.close()
+    run.cov['trusted_base'] = C.GLOBAL_TRUST + ['OsRng key freshness (distinctness is not proved)', 'the fake ssh/scp scripts run the remote command locally under bash; real ssh/scp are not exercised',
+                                                'the reader-thread message abstraction of the handshake loop (Line/Started/Completed/Closed/Error) is hand-modelled; its tie is the L4 matrix']
